@@ -238,7 +238,7 @@ ADDENDA = {
     "C13": "Also decides: (R13.3) coroutine wrapping of async functions is conditioned on async-ness only in both signature builders; (R13.4) the runtime route never reads typing's shared ForwardRef evaluation cache; by model extraction (R13.5): the AST route, the string route and the runtime route of annotation evaluation are interpreted from their AST on ~800 annotation expressions of the typing vocabulary (the runtime form is built by CPython from the same expression) and must yield equal values and agree on rejection; (R13.6) compute_parameters on the def node and ArgSpecCache.from_signature on CPython's inspect.Signature of the same def interpreted on ~800 def headers: names, kinds, defaults, annotations and return annotation agree. Round 4: R13.6 also covers methods of classes nested up to three levels (the implicit type of self on both routes); R13.5's vocabulary has the starred form of unpacked tuples.",
     "C14": "Also decides: hand-written hashes canonicalise unordered fields; identity returns of substitute_typevars are guarded against type variables; by model extraction (R14.4): unite_values / flatten_values / annotate_value interpreted from their AST on 14 model values with the real classes' equality and hash, every pair and triple: idempotent, commutative, associative, never nests, Never identity, members = operands' members, equal alternatives merged; (R14.5) MultiValuedValue.__eq__ interpreted on unions of up to 12 members and their reorderings: equality is order-insensitive and member-sensitive. Round 4: (R14.6) 56 unions of 2-15 members incl. unhashable literals accept each operand, two operands and themselves (the large-union lookup table interpreted).",
     "C15": "Also decides, by model extraction: (R15.7) solve() and remove_redundant_solutions() are interpreted from their AST over a five-element lattice of types (assignability = inclusion, unite_values = union) for every set of up to 4 (quick) / 5 (thorough) lower/upper/constraint bounds in every order: a returned type satisfies every bound and the accepted-vs-diagnosed verdict is order independent; (R15.8) every LowerBound / UpperBound built for a type variable outside the solver carries the variable's inherent bounds (or the variable is a ParamSpec). Round 4: the R15.7 pool has a constraint list whose first member an upper bound rules out.",
-    "C16": "By model extraction: (R16.h) _apply_changes_to_lines interpreted from its AST on every file of <= 6 lines x every deletion set x additions equals the documented splice, first change only; (R16.i) the interactive fixer's patch loop interpreted for every sequence of <= 3 changes gives the same file as the splices; (R16.j) iterating add-ignores on 2,280 small files with 0-2 diagnostic codes per line reaches a fixpoint with nothing reported, unchanged code lines, no unused inserted comment, and each inserted comment suppressing exactly one diagnostic. Also decides: (R16.f) whole-assignment deletions only for a single non-pattern target; (R16.k) NodeTransformer / ReplaceNodeTransformer.generic_visit interpreted on real syntax trees (18 statements covering every list-valued and optional field shape) for every expression node as the node to replace: exactly that node differs and the original is not mutated. Round 4: (R16.l) maybe_show_too_many_pos_args_error interpreted on 103 calls with repeated arguments and positional-only parameters, Composite objects carrying the class's real __eq__ / __hash__: the i-th argument is named with the i-th parameter, positional-only arguments stay positional. (R16.m) get_line_range_for_node interpreted on the statements of 11 multi-line sources: the range is lineno .. end_lineno. (R16.n) from_pattern + maybe_replace_with_fstring interpreted on 1,300 templates; CPython evaluates the proposed f-string and the original %-expression: equal values, nothing proposed for an expression that raises.",
+    "C16": "By model extraction: (R16.h) _apply_changes_to_lines interpreted from its AST on every file of <= 6 lines x every deletion set x additions equals the documented splice, first change only; (R16.i) the interactive fixer's patch loop interpreted for every sequence of <= 3 changes gives the same file as the splices; (R16.j) iterating add-ignores on 2,280 small files with 0-2 diagnostic codes per line reaches a fixpoint with nothing reported, unchanged code lines, no unused inserted comment, and each inserted comment suppressing exactly one diagnostic. Also decides: (R16.f) whole-assignment deletions only for a single non-pattern target; (R16.k) NodeTransformer / ReplaceNodeTransformer.generic_visit interpreted on real syntax trees (18 statements covering every list-valued and optional field shape) for every expression node as the node to replace: exactly that node differs and the original is not mutated. Round 4: (R16.l) maybe_show_too_many_pos_args_error interpreted on 103 calls with repeated arguments and positional-only parameters, Composite objects carrying the class's real __eq__ / __hash__: the i-th argument is named with the i-th parameter, positional-only arguments stay positional. (R16.m) get_line_range_for_node interpreted on the statements of 11 multi-line sources: the range is lineno .. end_lineno. (R16.n) from_pattern + maybe_replace_with_fstring interpreted on 1,300 templates; CPython evaluates the proposed f-string and the original %-expression: equal values, nothing proposed for an expression that raises. (R16.o) _maybe_show_missing_f_error interpreted on seven real statements: no fix is proposed for the literal part of an f-string, a docstring, a .format() receiver or a call with matching keywords.",
     "C17": "By model extraction: (R17.6) the str.format template parser and _str_format_impl are interpreted from their AST for every template of <= 4 (quick) / 5 (thorough) characters over an 11-symbol alphabet plus 37 longer templates x 5 argument shapes; a diagnostic is shown whenever CPython's own str.format raises a template or missing-argument error on universal argument values and none (outside two listed stricter rules) when it formats. Also decides: (R17.4) truth table of argument consumption for `*` width / `*` precision / %%; (R17.5) a .format field name is an index exactly under isdecimal(), never by trial int(); (R17.7) the %-format checker (parsing regex, lint, accept for tuple and mapping operands) interpreted on ~540 str / bytes templates x 23 literal operands and compared with CPython evaluating the same expression: reported iff CPython raises, outside three documented stricter rules.",
     "C18": "Also decides, by model extraction: (R18.6) the whole layering pipeline (parse_config_file, _parse_config_section, option parse / is_applicable_to / sort_key / get_value_from_instances, Options.from_option_list / get_value_for) is interpreted from its AST on stacks of up to 3 chained files x command-line values x 6 queried modules; every effective value equals the documented layering for a boolean, an integer and a concatenated list option and for disable_all, and 18 malformed configurations each raise InvalidConfigOption. Round 4: (R18.7) = C10 R10.7; include paths of the model are unresolved aliases, so recursion must be detected on resolved paths.",
     "C19": "Also decides: (R19.3) constant-index range test and scan positions, folded over a finite grid; (R19.4) the literal result comes from performing the operation for this call (a call of the callee dominates every return of a helper); by model extraction: (R19.5) visit_UnaryOp / visit_BinOp / _visit_binop_internal / _visit_binop_no_mvv interpreted over 12 literal operands x 16 operators against CPython evaluating the same expression (with _check_dunder_call given its documented contract); (R19.6) attribute lookup on known objects (get_attribute, _get_attribute_from_known, the known-attribute hook, _get_attribute_from_mro) against CPython's getattr.",
